@@ -1348,19 +1348,22 @@ def _probe_functions():
     return [nested, bytecols, var_by_name, po_by_kw]
 
 
-_SETVAL_MARKERS = ("input channels available", "not found among available inputs", "n args are interpreted")
-
-
-def _classify(e, kind):
+def _classify(e, kind, node=None, before=None):
+    """the outcome class of an exception, by its TYPE and by the STATE it left (never by the wording of its message):
+    an ARGUMENT REFUSAL is a ValueError that came before anything happened -- at construction, or at a call that left
+    every input as it was and did not start a run (a run that starts and raises marks the node `failed`); anything a
+    started run raises is a run error.  For function nodes the other classes are the exception types themselves (a
+    TypeError of python's call machinery and one of unpacking the result are one class: the statement does not tell
+    them apart)."""
     from pyiron_workflow.mixin.run import ReadinessError
 
     if isinstance(e, ReadinessError):
         return "Readiness"
-    if isinstance(e, ValueError) and any(m in str(e) for m in _SETVAL_MARKERS):
+    if isinstance(e, ValueError) and (
+        node is None or (not node.failed and before == [tok(c.value) for _k, c in node.inputs.items()])
+    ):
         return "ValueError"
     if kind == "fn":
-        if isinstance(e, TypeError) and ("not iterable" in str(e) or "zip argument" in str(e)):
-            return "NotIterable"
         return type(e).__name__
     if isinstance(e, (KeyError, AttributeError, ValueError, TypeError)):
         return "RunError"
@@ -1438,22 +1441,9 @@ def ret_texts(case):
     return [st, st] if layout == "two_returns" else [st]
 
 
-_DEF_MARKERS = [
-    ("conflicts with __init__", "reservedName"),
-    ("can only parse callables with at most one", "multipleReturns"),
-    ("must not have degenerate output labels", "degenerate"),
-    ("number of return values must exactly match", "countMismatch"),
-    ("must either both or neither be", "presence"),
-    ("Expected type hints and return labels to have matching", "hintCount"),
-    ("non-default argument", "dataclass"),
-    ("encountered the variadic argument", "variadic"),
-]
-
-
 def _classify_def(e):
-    for marker, name in _DEF_MARKERS:
-        if marker in str(e):
-            return name
+    """a refused definition is observed by the TYPE of the exception only (which of the library's checks spoke is told
+    by the wording of the message alone, and no statement depends on it)"""
     return type(e).__name__
 
 
@@ -1842,7 +1832,7 @@ def _run(case, h, modname, variant):
             obs.append(io_line(node))
             stats["call:ret"] = stats.get("call:ret", 0) + 1
         except Exception as e:  # noqa: BLE001
-            c = _classify(e, kind)
+            c = _classify(e, kind, node, rf["inst_ins"])
             rf["call"] = c
             rf["call_exc"] = f"{type(e).__name__}: {str(e)[:120]}"
             if c == "RunError":
